@@ -548,11 +548,12 @@ func c16Trunc(s string) string {
 	return s
 }
 
-const c16Rule = "catalogue struct types x random rows x random writer configuration (page version, codec, page/row-group/dictionary limits) x histories with poison-on-release active: GenericReader.Read/Read[T] batches deep-copied at hand-over and re-compared after every later Read, SeekToRow, ReadRows, Close and heavy pool churn by unrelated readers/writers of all codecs; ReadRows results compared just before the next call on the same reader, their clones forever; page values while the page is held, clones after Release; rows and slices passed to Write/WriteRows/Buffer (with sorting) compared before/after; non-trivial = the type has a byte-array column holding a non-empty value and at least two hand-overs were held across later calls"
+const c16Rule = "catalogue struct types x random rows x random writer configuration (page version, codec, page/row-group/dictionary limits) x histories with poison-on-release active: GenericReader.Read/Read[T] batches deep-copied at hand-over and re-compared after every later Read, SeekToRow, ReadRows, Close and heavy pool churn by unrelated readers/writers of all codecs; ReadRows results compared just before the next call on the same reader, their clones forever; page values while the page is held, clones after Release; rows and slices passed to Write/WriteRows/Buffer (with sorting) compared before/after; non-trivial = the type has a byte-array column holding a non-empty value and at least two hand-overs were held across later calls; plus row readers over converted and merged row groups (permuted schema), caller []Row batches kept alive across Reset / later writes / sorting-run flushes, and hand-written map-typed struct fields read into reused destination slices"
 
 func c16HistoriesInProcess(ctx *core.Ctx) {
 	ctx.SetRule(c16Rule)
 	c16PoisonSelfTest(ctx)
+	c16MapHistories(ctx)
 	ncases := ctx.Scale(5, 20)
 	var wg sync.WaitGroup
 	sem := make(chan struct{}, 16)
@@ -638,6 +639,7 @@ func c16Case(ctx *core.Ctx, e *gen.Entry, t *gen.Typed, r *rand.Rand, k int) {
 
 	// ---- write side: the library must not modify what the caller passes in
 	file := c16WriteSide(ctx, h, e, t, rows, cfg, r)
+	c16WriteRowsKeepAlive(ctx, h, e, rows, cfg, r)
 	if file == nil {
 		ctx.Hist("outcome", "write-error")
 		c16Count(ctx, e.Name+"|"+cfg.Desc+"|"+strings.Join(valTexts, "|"), false)
@@ -650,6 +652,7 @@ func c16Case(ctx *core.Ctx, e *gen.Entry, t *gen.Typed, r *rand.Rand, k int) {
 	// ---- read side
 	c16TypedHistory(h, t, file, n, r)
 	c16ReaderHistory(h, e, file, n, r)
+	c16ConvertedHistory(h, e, file, r)
 	c16RowsHistory(h, file, r)
 	c16PagesHistory(h, file, r)
 	c16ValueReaderHistory(h, file, r)
@@ -836,7 +839,11 @@ func (p *c16PendingRows) check(h *c16Hist, r *rand.Rand, reader string) {
 		c16Churn(r, 1)
 	}
 	if now := c16RowsText(p.rows); now != p.snap {
-		h.ctx.Fail("L1", "row-changed-before-next-call", "rows returned by "+reader+".ReadRows changed before the next call on the same reader",
+		key := "row-changed-before-next-call"
+		if strings.Contains(reader, "(") || strings.Contains(reader, "RowGroup") {
+			key += ":" + reader // converted / merged views: re-indexed column chunks (convertedPage)
+		}
+		h.ctx.Fail("L1", key, "rows returned by "+reader+".ReadRows changed before the next call on the same reader",
 			h.detail(map[string]any{"reader": reader, "before": c16Trunc(p.snap), "after": c16Trunc(now), "history": h.ops}))
 	}
 	p.rows = nil
@@ -1145,6 +1152,400 @@ func c16PagesHistory(h *c16Hist, file []byte, r *rand.Rand) {
 				parquet.Release(hp.page)
 			}
 			h.verify("release of all held pages")
+		}()
+	}
+}
+
+// c16ReadRowsLoop drives one row reader: what a ReadRows call returned is compared just before the
+// next call on the same reader (with and without unrelated pool activity in between), clones forever.
+func c16ReadRowsLoop(h *c16Hist, rows parquet.Rows, label string, numRows int64, r *rand.Rand) {
+	defer func() {
+		if p := recover(); p != nil {
+			h.ctx.Hist("outcome", "rows-panic:"+label)
+		}
+	}()
+	var pending c16PendingRows
+	buf := make([]parquet.Row, []int{1, 7, 40, 300}[r.Intn(4)])
+	for calls := 0; calls < 14; calls++ {
+		pending.check(h, r, label)
+		if r.Intn(7) == 0 && numRows > 0 {
+			pos := r.Int63n(numRows)
+			if r.Intn(3) == 0 {
+				pos = 0
+			}
+			rows.SeekToRow(pos)
+			h.op("%s.SeekToRow(%d)", label, pos)
+			h.verify(label + ".SeekToRow")
+			continue
+		}
+		if r.Intn(2) == 0 {
+			buf = make([]parquet.Row, len(buf))
+		}
+		got, err := rows.ReadRows(buf)
+		h.op("%s.ReadRows(%d)=%d", label, len(buf), got)
+		if got > 0 {
+			pending.set(buf[:got])
+			h.holdClones(label+".ReadRows + Row.Clone", buf[:got])
+		}
+		h.verify(label + ".ReadRows")
+		if err != nil || got == 0 {
+			break
+		}
+	}
+	pending.check(h, r, label)
+	rows.Close()
+	h.op("%s.Close", label)
+	h.verify(label + ".Close")
+}
+
+// c16PermutedSchema: the same top-level fields in another order (sometimes one dropped), so that
+// leaf columns get a new column index in a converted or merged view.
+func c16PermutedSchema(e *gen.Entry, r *rand.Rand) (schema *parquet.Schema) {
+	defer func() {
+		if p := recover(); p != nil {
+			schema = nil
+		}
+	}()
+	var fields []reflect.StructField
+	for i := 0; i < e.Type.NumField(); i++ {
+		f := e.Type.Field(i)
+		fields = append(fields, reflect.StructField{Name: f.Name, Type: f.Type, Tag: f.Tag})
+	}
+	if len(fields) < 2 {
+		return nil
+	}
+	if r.Intn(2) == 0 {
+		for i, j := 0, len(fields)-1; i < j; i, j = i+1, j-1 {
+			fields[i], fields[j] = fields[j], fields[i]
+		}
+	} else {
+		fields = append(fields[1:], fields[0])
+	}
+	if len(fields) >= 3 && r.Intn(3) == 0 {
+		fields = fields[:len(fields)-1]
+	}
+	st := reflect.StructOf(fields)
+	return parquet.SchemaOf(reflect.New(st).Elem().Interface())
+}
+
+// Row readers over CONVERTED and MERGED row groups (convertedPage, re-indexed column chunks): both
+// the chunk-level reader NewRowGroupRowReader(view) and view.Rows().
+func c16ConvertedHistory(h *c16Hist, e *gen.Entry, file []byte, r *rand.Rand) {
+	defer func() {
+		if p := recover(); p != nil {
+			h.ctx.Hist("outcome", "converted-panic")
+		}
+	}()
+	target := c16PermutedSchema(e, r)
+	if target == nil {
+		h.ctx.Hist("converted", "no-permutation")
+		return
+	}
+	f, err := parquet.OpenFile(bytes.NewReader(file), int64(len(file)))
+	if err != nil {
+		return
+	}
+	rgs := f.RowGroups()
+	if len(rgs) == 0 {
+		return
+	}
+	rg := rgs[r.Intn(len(rgs))]
+	if conv, err := parquet.Convert(target, rg.Schema()); err == nil {
+		view := parquet.ConvertRowGroup(rg, conv)
+		c16ReadRowsLoop(h, parquet.NewRowGroupRowReader(view), "NewRowGroupRowReader(ConvertRowGroup)", view.NumRows(), r)
+		c16ReadRowsLoop(h, view.Rows(), "ConvertRowGroup.Rows", view.NumRows(), r)
+		h.ctx.Hist("converted", "view")
+	} else {
+		h.ctx.Hist("converted", "convert-error")
+	}
+	if len(rgs) > 3 {
+		rgs = rgs[:3]
+	}
+	if merged, err := parquet.MergeRowGroups(rgs, target); err == nil {
+		c16ReadRowsLoop(h, parquet.NewRowGroupRowReader(merged), "NewRowGroupRowReader(MergeRowGroups)", merged.NumRows(), r)
+		c16ReadRowsLoop(h, merged.Rows(), "MergeRowGroups.Rows", merged.NumRows(), r)
+		h.ctx.Hist("converted", "merged")
+	} else {
+		h.ctx.Hist("converted", "merge-error")
+	}
+}
+
+// The caller's []Row batches stay alive across Reset, later writes, sorting-run flushes and Close and
+// are re-compared after every later call: the library must never write through them.
+func c16WriteRowsKeepAlive(ctx *core.Ctx, h *c16Hist, e *gen.Entry, rows reflect.Value, cfg *gen.WriterCfg, r *rand.Rand) {
+	n := rows.Len()
+	if n < 2 {
+		return
+	}
+	prs := make([]parquet.Row, n)
+	for i := 0; i < n; i++ {
+		prs[i] = e.Schema.Deconstruct(nil, rows.Index(i).Addr().Interface())
+	}
+	var batches [][]parquet.Row
+	for pos := 0; pos < n; {
+		b := 1 + r.Intn((n+1)/2)
+		if pos+b > n {
+			b = n - pos
+		}
+		batches = append(batches, prs[pos:pos+b])
+		pos += b
+	}
+	snaps := make([]string, len(batches))
+	for i, b := range batches {
+		snaps[i] = c16RowsText(b)
+	}
+	var api string
+	var hist []string
+	written := 0
+	check := func(stage string) {
+		hist = append(hist, stage)
+		for i := 0; i < written; i++ {
+			if now := c16RowsText(batches[i]); now != snaps[i] {
+				ctx.Fail("L1", "caller-slice-modified-by-write:"+api+":row-kept-across-later-calls",
+					fmt.Sprintf("parquet rows passed to %s (batch %d) were changed by the library after %s", api, i, stage),
+					h.detail(map[string]any{"api": api, "batch": i, "calls": hist, "before": c16Trunc(snaps[i]), "after": c16Trunc(now)}))
+				snaps[i] = now
+			}
+		}
+	}
+	var sorting []parquet.SortingColumn
+	for _, p := range e.Schema.Columns() {
+		if leaf, ok := e.Schema.Lookup(p...); ok && leaf.MaxRepetitionLevel == 0 && r.Intn(2) == 0 {
+			sorting = append(sorting, parquet.Ascending(p...))
+			break
+		}
+	}
+	done := make(chan struct{})
+	go func() {
+		defer close(done)
+		defer func() { recover() }()
+		var sink bytes.Buffer
+		switch r.Intn(4) {
+		case 0:
+			api = "RowBuffer.WriteRows"
+			rb := parquet.NewRowBuffer[any](e.Schema, parquet.SortingRowGroupConfig(parquet.SortingColumns(sorting...)))
+			for i, b := range batches {
+				rb.WriteRows(b)
+				written = i + 1
+				check("WriteRows")
+				if r.Intn(2) == 0 {
+					sort.Sort(rb)
+					check("sort.Sort")
+				}
+				if r.Intn(3) == 0 {
+					pw := parquet.NewWriter(&sink, append([]parquet.WriterOption{e.Schema}, cfg.Opts...)...)
+					pw.WriteRowGroup(rb)
+					pw.Close()
+					check("WriteRowGroup(RowBuffer)")
+				}
+				rb.Reset()
+				check("Reset")
+			}
+		case 1:
+			api = "Buffer.WriteRows"
+			bf := parquet.NewBuffer(e.Schema, parquet.SortingRowGroupConfig(parquet.SortingColumns(sorting...)))
+			for i, b := range batches {
+				bf.WriteRows(b)
+				written = i + 1
+				check("WriteRows")
+				if r.Intn(3) == 0 {
+					bf.Reset()
+					check("Reset")
+				}
+			}
+		case 2:
+			api = "SortingWriter.WriteRows"
+			sortRows := int64(1 + r.Intn(len(batches[0])+2))
+			sw := parquet.NewSortingWriter[any](&sink, sortRows, append([]parquet.WriterOption{e.Schema,
+				parquet.SortingWriterConfig(parquet.SortingColumns(sorting...))}, cfg.Opts...)...)
+			for i, b := range batches {
+				sw.WriteRows(b)
+				written = i + 1
+				check("WriteRows")
+				if r.Intn(4) == 0 {
+					sw.Flush()
+					check("Flush")
+				}
+			}
+			sw.Close()
+			check("Close")
+		default:
+			api = "Writer.WriteRows"
+			pw := parquet.NewWriter(&sink, append([]parquet.WriterOption{e.Schema}, cfg.Opts...)...)
+			for i, b := range batches {
+				pw.WriteRows(b)
+				written = i + 1
+				check("WriteRows")
+				if r.Intn(3) == 0 {
+					pw.Flush()
+					check("Flush")
+				}
+			}
+			pw.Close()
+			check("Close")
+		}
+	}()
+	select {
+	case <-done:
+		ctx.Hist("write-rows-kept", api)
+	case <-time.After(20 * time.Second):
+		ctx.Hist("write-rows-kept", "did-not-return(abandoned)")
+	}
+}
+
+// ---- map-typed fields (hand-written types: the catalogue has none)
+
+type c16MapInner struct {
+	Note string            `parquet:"note"`
+	Tags map[string]string `parquet:"tags"`
+}
+
+type c16MapRow struct {
+	ID     int64                  `parquet:"id"`
+	Counts map[string]int64       `parquet:"counts"`
+	Labels map[string]string      `parquet:"labels"`
+	Nested map[string]c16MapInner `parquet:"nested"`
+	Name   string                 `parquet:"name"`
+}
+
+func c16MapRows(r *rand.Rand, n int) []c16MapRow {
+	rows := make([]c16MapRow, n)
+	for i := range rows {
+		rows[i].ID = int64(i)
+		rows[i].Name = fmt.Sprintf("row-%04d", i)
+		rows[i].Counts = map[string]int64{}
+		rows[i].Labels = map[string]string{}
+		rows[i].Nested = map[string]c16MapInner{}
+		for k := r.Intn(4); k > 0; k-- {
+			rows[i].Counts[fmt.Sprintf("c%d-%d", i, k)] = int64(r.Intn(1000))
+		}
+		for k := r.Intn(4); k > 0; k-- {
+			rows[i].Labels[fmt.Sprintf("l%d-%d", i, k)] = fmt.Sprintf("label-%d-%d", i, r.Intn(100))
+		}
+		for k := r.Intn(3); k > 0; k-- {
+			in := c16MapInner{Note: fmt.Sprintf("n%d", i), Tags: map[string]string{}}
+			for t := r.Intn(3); t > 0; t-- {
+				in.Tags[fmt.Sprintf("t%d-%d-%d", i, k, t)] = fmt.Sprint(r.Intn(10))
+			}
+			rows[i].Nested[fmt.Sprintf("k%d-%d", i, k)] = in
+		}
+	}
+	return rows
+}
+
+func c16MapCanon(rows []c16MapRow) string {
+	var sb strings.Builder
+	for _, row := range rows {
+		fmt.Fprintf(&sb, "{%d %q counts[", row.ID, row.Name)
+		ks := make([]string, 0, len(row.Counts))
+		for k := range row.Counts {
+			ks = append(ks, k)
+		}
+		sort.Strings(ks)
+		for _, k := range ks {
+			fmt.Fprintf(&sb, "%s=%d,", k, row.Counts[k])
+		}
+		sb.WriteString("] labels[")
+		ks = ks[:0]
+		for k := range row.Labels {
+			ks = append(ks, k)
+		}
+		sort.Strings(ks)
+		for _, k := range ks {
+			fmt.Fprintf(&sb, "%s=%s,", k, row.Labels[k])
+		}
+		sb.WriteString("] nested[")
+		ks = ks[:0]
+		for k := range row.Nested {
+			ks = append(ks, k)
+		}
+		sort.Strings(ks)
+		for _, k := range ks {
+			in := row.Nested[k]
+			fmt.Fprintf(&sb, "%s=(%s", k, in.Note)
+			ts := make([]string, 0, len(in.Tags))
+			for t := range in.Tags {
+				ts = append(ts, t)
+			}
+			sort.Strings(ts)
+			for _, t := range ts {
+				fmt.Fprintf(&sb, " %s=%s", t, in.Tags[t])
+			}
+			sb.WriteString("),")
+		}
+		sb.WriteString("]}")
+	}
+	return sb.String()
+}
+
+// c16MapHistories: GenericReader.Read into a REUSED destination slice, the rows of earlier batches
+// kept by shallow copy (the struct values with their map headers): no later Read may change them.
+func c16MapHistories(ctx *core.Ctx) {
+	r := ctx.Rand("c16/maps")
+	ncases := ctx.Scale(40, 300)
+	for k := 0; k < ncases; k++ {
+		func() {
+			var desc string
+			defer c16Recover(ctx, "map-field history", func(m map[string]any) map[string]any { m["case"] = desc; return m })
+			n := []int{3, 9, 33, 100}[r.Intn(4)]
+			rows := c16MapRows(r, n)
+			codec := gen.CodecNames[r.Intn(len(gen.CodecNames))]
+			pb := []int{24, 200, 4096}[r.Intn(3)]
+			batchLen := []int{1, 2, 3, 7, 20}[r.Intn(5)]
+			desc = fmt.Sprintf("c16MapRow rows=%d codec=%s pagebuf=%d reused-batch=%d case=%d", n, codec, pb, batchLen, k)
+			var buf bytes.Buffer
+			w := parquet.NewGenericWriter[c16MapRow](&buf, parquet.Compression(gen.Codecs[codec]), parquet.PageBufferSize(pb))
+			if _, err := w.Write(rows); err != nil {
+				ctx.Hist("maps", "write-error")
+				return
+			}
+			if err := w.Close(); err != nil {
+				ctx.Hist("maps", "write-error")
+				return
+			}
+			gr := parquet.NewGenericReader[c16MapRow](bytes.NewReader(buf.Bytes()))
+			batch := make([]c16MapRow, batchLen)
+			type keptBatch struct {
+				rows []c16MapRow
+				snap string
+				at   string
+			}
+			var kept []keptBatch
+			var ops []string
+			verify := func(stage string) {
+				for i := range kept {
+					if now := c16MapCanon(kept[i].rows); now != kept[i].snap {
+						ctx.Fail("L1", "go-value-overwritten-by-later-read:map", "rows filled by "+kept[i].at+" and kept by the caller (shallow copy of the struct values) changed after "+stage+": a later Read wrote into a map of rows already handed out",
+							map[string]any{"case": desc, "history": ops, "before": c16Trunc(kept[i].snap), "after": c16Trunc(now)})
+						kept[i].snap = now
+					}
+				}
+			}
+			for i := 0; i < 4+r.Intn(8); i++ {
+				switch r.Intn(6) {
+				case 0:
+					gr.Reset()
+					ops = append(ops, "Reset")
+					verify("GenericReader.Reset")
+				case 1:
+					pos := int64(r.Intn(n))
+					gr.SeekToRow(pos)
+					ops = append(ops, fmt.Sprintf("SeekToRow(%d)", pos))
+					verify("GenericReader.SeekToRow")
+				default:
+					got, _ := gr.Read(batch)
+					ops = append(ops, fmt.Sprintf("Read(reused %d)=%d", batchLen, got))
+					verify("GenericReader.Read into the reused batch")
+					if got > 0 {
+						cp := append([]c16MapRow(nil), batch[:got]...)
+						kept = append(kept, keptBatch{cp, c16MapCanon(cp), ops[len(ops)-1]})
+					}
+				}
+			}
+			gr.Close()
+			verify("GenericReader.Close")
+			c16Count(ctx, "maps|"+desc+"|"+strings.Join(ops, ","), len(kept) >= 2)
+			ctx.Hist("maps", "ran")
 		}()
 	}
 }
